@@ -19,10 +19,27 @@ def D_zero(n):
     return D
 
 
-def gmrf_factor(n):
-    """Upper-triangular R with R'R = D'D (what GMRF(bc_type='zero').sqrtprec is, up to sqrt(prec))."""
-    D = D_zero(n)
-    return np.linalg.cholesky(D.T @ D).T
+def D_neumann(n):
+    """First-order difference without boundary terms: (n-1) x n (its null space are the constants)."""
+    D = np.zeros((n - 1, n))
+    for i in range(n - 1):
+        D[i, i], D[i, i + 1] = -1.0, 1.0
+    return D
+
+
+def gmrf_structure(n, bc="zero"):
+    """(P, rank) of the GMRF structure matrix P = D'D for the boundary condition."""
+    D = D_zero(n) if bc == "zero" else D_neumann(n)
+    return D.T @ D, (n if bc == "zero" else n - 1)
+
+
+def gmrf_factor(n, bc="zero"):
+    """Upper-triangular R with R'R = P (for the improper Neumann field: P + sqrt(eps) I, the documented regularisation
+    of the factor the randomise-then-optimise samplers work with)."""
+    P, _ = gmrf_structure(n, bc)
+    if bc != "zero":
+        P = P + np.sqrt(EPS) * np.eye(n)
+    return np.linalg.cholesky(P).T
 
 
 class Undecided(Exception):
@@ -87,6 +104,7 @@ def reference_draw(rec, data, block, kind, knobs, others, start, tape, n_steps):
     g = lambda k: float(np.ravel(others[k])[0])
     v = lambda k: np.asarray(others[k], float).ravel()
     gmrf = rec.get("xprior", "gauss") == "gmrf"
+    bc = rec.get("bc", "zero")
     if kind == "Conjugate":
         if block == "s" and shape in ("x_s", "x_d_s", "x_s_w", "x_s_step"):
             return gamma_steps(tape, m / 2 + 1.0, 0.5 * np.sum((A @ v("x") - y) ** 2) + 0.1, n_steps)
@@ -96,8 +114,13 @@ def reference_draw(rec, data, block, kind, knobs, others, start, tape, n_steps):
             Ai, yi, b0 = (A, y, 0.1) if block == "l1" else (data["A2"], data["y2"], 0.3)
             return gamma_steps(tape, len(yi) / 2 + (1.0 if block == "l1" else 2.0), 0.5 * np.sum((Ai @ v("x") - yi) ** 2) + b0, n_steps)
         if block == "d" and shape == "x_d_s":
-            Lx = gmrf_factor(n) @ v("x") if gmrf else v("x")
-            return gamma_steps(tape, n / 2 + 1.0, 0.5 * np.sum(Lx ** 2) + 0.1, n_steps)
+            # d enters the joint through  d^(rank/2) exp(-d/2 x'Px)  *  Gamma(d; 1, 0.1):  rank is n for a proper field and
+            # n-1 for the improper Neumann field
+            if gmrf:
+                P, rank = gmrf_structure(n, bc)
+                R = gmrf_factor(n, bc)        # (for the Neumann field this carries the sqrt(eps) regularisation, a 1e-8 effect)
+                return gamma_steps(tape, rank / 2 + 1.0, 0.5 * float(np.sum((R @ v("x")) ** 2)) + 0.1, n_steps)
+            return gamma_steps(tape, n / 2 + 1.0, 0.5 * np.sum(v("x") ** 2) + 0.1, n_steps)
         if block == "d" and shape == "x_d_a":
             return gamma_steps(tape, n / 2 + 1.0, 0.5 * np.sum(v("x") ** 2) + g("a"), n_steps)
         if block == "d" and shape == "x_d_reg":
@@ -132,7 +155,7 @@ def reference_draw(rec, data, block, kind, knobs, others, start, tape, n_steps):
             L2 = np.sqrt(3.0) * gmrf_factor(n) if (gmrf and shape == "x_s") else I
             return rto_steps(tape, [(np.sqrt(g("s")), A, y)], L2, start, maxit, tol, n_steps)
         if shape == "x_d_s":
-            L2 = np.sqrt(g("d")) * (gmrf_factor(n) if gmrf else I)
+            L2 = np.sqrt(g("d")) * (gmrf_factor(n, bc) if gmrf else I)
             return rto_steps(tape, [(np.sqrt(g("s")), A, y)], L2, start, maxit, tol, n_steps)
         if shape == "x_d_a":
             return rto_steps(tape, [(1 / np.sqrt(0.3), A, y)], np.sqrt(g("d")) * I, start, maxit, tol, n_steps)
